@@ -109,6 +109,20 @@ def check(prog, rep):
     # parameter roles from what the wrapper passes: the raster's data, and the caller's neighbourhood size
     datap = [p for p, t in kc.bound.items() if t == ('data', ('param', pub.params[0]))]
     npar = [p for p, t in kc.bound.items() if t[0] == 'param' and t[1] != pub.params[0]]
+    if not datap:
+        # the kernel does not get the raster as given: is what it gets the raster pushed through a value-changing function?
+        from ..wterm import show as _tshow, walk as _twalk
+        CHANGERS = ('nan_to_num', 'clip', 'round', 'around', 'rint', 'abs', 'absolute', 'trunc', 'floor', 'ceil', 'fillna')
+        rd_ = ('data', ('param', pub.params[0]))
+        for p_, t_ in kc.bound.items():
+            hits = [x for x in _twalk(t_) if isinstance(x, tuple) and len(x) >= 3 and x[0] == 'call' and
+                    str(x[1] if not isinstance(x[1], tuple) else x[1][-1]).split('.')[-1] in CHANGERS and
+                    any(y == rd_ for y in _twalk(x))]
+            if hits:
+                rep.add('Q2', pub, entry, 'labelling kernel receives %s' % _tshow(t_, 100), call.lineno, False,
+                        'the cells are compared as they are: the kernel must get the raster\'s own values, not %s of them (NaN cells '
+                        'turned into numbers join the regions of that number; rounded values merge distinct ones)' % _tshow(hits[0][1], 40))
+                return
     if len(datap) != 1 or len(npar) != 1:
         raise AnalysisIncomplete('regions: kernel arguments not understood (data %s, neighbourhood %s)' % (datap, npar))
     c.data, c.nparam = datap[0], npar[0]
